@@ -220,6 +220,31 @@ func runC12(r *Run) {
 			}
 			r.Floor("R13", "calls of the DAO ledger's entry points", nE, 4)
 		}
+		r.Rule("R14", "see C15 R11 (imported): the bank MsgMultiSend wrapper refuses every blocked output on every path to the transfer — the DAO module account is blocked precisely so that coins enter the pool only through Fund")
+		r.Import("R14/C15.", []string{"R11"}, runC15)
+		r.Rule("R15", "PATH.the-migration-moves-everything: the v1.8.0 step that moves the old DAO account's coins into the module account (whose ledger already attributes them to the holders) sends GetAllBalances(old account) on every path to a success return — an early return for 'an unfunded old account' judged by one denomination strands the others, and the recorded total exceeds the module account's coins for good")
+		if mg, ok := r.P.FnOK("app/upgrades/v1.8.0.migrateUCDAObalance"); ok {
+			isSend := isCallMatching(func(ci CallInfo) bool {
+				if ci.Name != "SendCoinsFromAccountToModule" {
+					return false
+				}
+				for _, a := range ci.Instr.Common().Args {
+					if namedName(a.Type()) == "Coins" && backSlice(a).HasCall(func(g CallInfo) bool { return g.Name == "GetAllBalances" }) {
+						return true
+					}
+				}
+				return false
+			})
+			w := PathQuery{Fn: mg, Block: isSend, Target: func(in ssa.Instruction) bool {
+				ret, ok := in.(*ssa.Return)
+				return ok && classifyExit(ret) != ExitFailure
+			}}.Search()
+			// the send's own error is returned: the return that carries it is not a 'success without the send'
+			r.Check(w == nil, "R15", fnID(mg)+"#moves-all-balances", r.P.Pos(fnPos(mg)), "every non-failure return follows SendCoinsFromAccountToModule(GetAllBalances(old))",
+				"the migration of the old DAO account can return without moving all of its balances", r.P.witness(w)...)
+		} else {
+			r.Bad("R15", "anchor/migrateUCDAObalance", "", "not found")
+		}
 		r.Rule("R10", "SHAPE.index-decided-by-balances-only: setHoldersIndex lists an address exactly when its DAO balances are not all zero — every branch condition in it is built from GetAccountBalances(addr).IsZero() and holdersStore.Has(key) alone; a condition that consults anything else (the bank keeper's blocked addresses, account types) makes the index differ from the set of non-zero accounts")
 		if sh, ok := r.P.FnOK("(x/ucdao/keeper.BaseKeeper).setHoldersIndex"); ok {
 			allowed := map[string]bool{"GetAccountBalances": true, "IsZero": true, "Has": true, "MustLengthPrefix": true, "getHoldersStore": true, "KVStore": true, "NewStore": true}
